@@ -4,7 +4,7 @@
    non-overlapping leaf spans, node span = hull of children, empty node
    zero-width between its neighbours) are the boolean [spans_ok_b] of
    Spec/SpanCheck.v, evaluated on every tree the REAL parser returns. *)
-From RV Require Import Model.LR Model.LRBytes Model.CompareBytes Spec.SpanCheck Proofs.Position.
+From RV Require Import Model.LR Model.LRBytes Model.CompareBytes Spec.SpanCheck Spec.Validators Proofs.Position Proofs.RoundTrip.
 
 (* line = 1 + newlines before the offset, column = bytes since the line start,
    preserved by str::position_after over any slice inside the input ... *)
@@ -34,6 +34,22 @@ Theorem spans_ordered : forall l prev,
   (forall i lo1 hi1 lo2 hi2, nth_error l i = Some (lo1, hi1) -> nth_error l (S i) = Some (lo2, hi2) -> hi1 <= lo2).
 Proof. intros l prev H. split; [exact (mono_b_spec l prev H)|exact (mono_b_adjacent l prev H)]. Qed.
 Print Assumptions spans_ordered.
+
+(* The span statement as a THEOREM about the byte-level model of the LR runtime
+   (string lexer with whitespace skipping or none, no Layout rule): every tree
+   the model returns passes the same checker that is evaluated on the real
+   trees — for all grammars and tables passing sound_b, all inputs, all
+   measured recognizer tables satisfying mt_ok_b (matches and whitespace runs
+   lie inside the input, whitespace runs are maximal). *)
+Theorem model_spans_ok : forall g T inp mt cfg fuel t,
+  wf_grammar_b g = true -> sound_b g T = true -> mt_ok_b inp mt = true -> bc_has_layout cfg = false ->
+  bparse g T inp mt fuel cfg = BOk t ->
+  spans_ok_b inp (resolve inp t) = true.
+Proof.
+  intros g T inp mt cfg fuel t Hwf Hs Hm Hl H.
+  exact (proj1 (model_tree_ok_main g T inp mt cfg Hwf Hs (mt_ok_b_spec inp mt Hm) Hl fuel t H)).
+Qed.
+Print Assumptions model_spans_ok.
 
 (* Non-vacuity: "a\n b" — position after "a\n" then " b" *)
 Example positions_nonvacuous :
